@@ -8,6 +8,8 @@
 //   P:i:hex             raw file content       L:i:now  load       G:now  gc        X:i  remove
 //   T:i:t:n:iters:len   n writer and n reader threads hammer session i (values = one byte repeated, length depends on the byte), then remove and a
 //                       final save of "final": T=ok unless some load failed or returned a value no writer wrote
+//   U:i:t:n:iters:len   the same with n writer and n reader *processes* (fork; only with F1: the fcntl lock is what excludes them)
+//   M:i:now:mb          load with the address space limited to what the process uses now + mb MiB (RLIMIT_AS): M=EXC(..) when load throws
 //   V:hexcookie         session_sid::valid_sid                      Q:now:hexcookie  session_sid::load (valid_sid + load + expiry re-check)
 // answer: one token per op:  <result>{i=len.crc32,...}   (directory summary after the op, crc32 by own bitwise code)
 #include "session_posix_file_storage.h"
@@ -32,6 +34,9 @@
 #include <time.h>
 #include <ctype.h>
 #include <pthread.h>
+#include <sys/resource.h>
+#include <sys/wait.h>
+#include <stdio.h>
 #include <algorithm>
 #include "hexio.h"
 using namespace hx;
@@ -246,6 +251,23 @@ int main()
 					fact.gc_job();
 					out << 'G';
 				}
+				else if(op == 'M' && a.size() == 4) {
+					size_t i = atoi(a[1].c_str()); if(i >= names.size() || !valid32(names[i])) throw 1;
+					g_now = (time_t)strtoll(a[2].c_str(), 0, 10);
+					unsigned long mb = strtoul(a[3].c_str(), 0, 10);
+					unsigned long pages = 0; { FILE *f = fopen("/proc/self/statm", "r"); if(f) { if(fscanf(f, "%lu", &pages) != 1) pages = 0; fclose(f); } }
+					struct rlimit old_l, new_l; getrlimit(RLIMIT_AS, &old_l);
+					new_l = old_l; new_l.rlim_cur = rlim_t(pages) * rlim_t(sysconf(_SC_PAGESIZE)) + rlim_t(mb) * 1048576u;
+					if(pages == 0 || setrlimit(RLIMIT_AS, &new_l) != 0) throw 1;
+					time_t t = 0; std::string d = "stale";
+					try {
+						bool ok = st->load(names[i], t, d);
+						setrlimit(RLIMIT_AS, &old_l);
+						if(ok) out << "M=" << (long long)t << '.' << hex(d); else out << "M=none";
+					}
+					catch(std::bad_alloc const &) { setrlimit(RLIMIT_AS, &old_l); out << "M=EXC"; }
+					catch(...) { setrlimit(RLIMIT_AS, &old_l); throw; }
+				}
 				else if(op == 'T' && a.size() == 6) {
 					size_t i = atoi(a[1].c_str()); if(i >= names.size() || !valid32(names[i])) throw 1;
 					time_t t = (time_t)strtoll(a[2].c_str(), 0, 10);
@@ -266,6 +288,34 @@ int main()
 					st->remove(names[i]);
 					st->save(names[i], t, "final");
 					if(bn == 0 && bm == 0) out << "T=ok"; else out << "T=bad(none=" << bn << ",mixed=" << bm << ")";
+				}
+				else if(op == 'U' && a.size() == 6) {
+					size_t i = atoi(a[1].c_str()); if(i >= names.size() || !valid32(names[i]) || !flock) throw 1;
+					time_t t = (time_t)strtoll(a[2].c_str(), 0, 10);
+					int n = atoi(a[3].c_str()), iters = atoi(a[4].c_str()), len = atoi(a[5].c_str());
+					if(n < 1 || n > 8 || iters < 1 || len < 1) throw 1;
+					g_now = t > 1000 ? t - 1000 : 0;
+					st->save(names[i], t, tval(0, len));
+					std::vector<pid_t> pids;
+					for(int k = 0; k < 2 * n; k++) {
+						pid_t pid = fork();
+						if(pid < 0) break;
+						if(pid == 0) {
+							int rc = 2;
+							try {
+								targ x = { st.get(), names[i], t, k % n, iters, len, 0, 0 };
+								if(k < n) t_writer(&x); else t_reader(&x);
+								rc = (x.bad_none || x.bad_mixed) ? 1 : 0;
+							} catch(...) { rc = 2; }
+							_exit(rc);
+						}
+						pids.push_back(pid);
+					}
+					int bad = int(2 * n - pids.size());
+					for(size_t k = 0; k < pids.size(); k++) { int stt = 0; if(waitpid(pids[k], &stt, 0) < 0 || !WIFEXITED(stt) || WEXITSTATUS(stt) != 0) bad++; }
+					st->remove(names[i]);
+					st->save(names[i], t, "final");
+					if(bad == 0) out << "U=ok"; else out << "U=bad(" << bad << ")";
 				}
 				else if(op == 'V' && a.size() == 2) {
 					cppcms::sessions::session_sid sid(st);
